@@ -16,6 +16,7 @@ From JT.Base Require Import Prelude.
 From JT.Model Require Import Frame Unpack Subpkg Server.
 From JT.Model Require Reply Attach Total_msgs.
 From JT.Proofs Require Import Server_proofs.
+From JT.Props Require C15.
 
 (* ---------------- no panic in the JT808 server's connection code ---------------- *)
 (* Crash = a Panic of the modelled code (index / slice out of range, nil dereference).  Death by resource
@@ -28,8 +29,6 @@ Proof. exact no_crash_808. Qed.
 Print Assumptions C10_808_no_crash.
 
 (* ---------------- no panic in the attachment server's connection code ---------------- *)
-(* d = the configured dialect; the default data handler and the DEFAULT file handler (its OnEvent runs
-   after every stage and once more when the connection ends, whatever the stage) *)
 (* every id of createDefaultHandle has a model behind handler_parse_chk (7 by the location / reply-path models, 21 by
    C03's parse_msg): its "unknown id" answer is never what a registered type gets *)
 Theorem C10_parse_all_covers_registered :
@@ -37,9 +36,31 @@ Theorem C10_parse_all_covers_registered :
 Proof. exact parse_all_covers_registered. Qed.
 Print Assumptions C10_parse_all_covers_registered.
 
+(* d = the configured dialect; the default data handler and the DEFAULT file handler (its OnEvent runs
+   after every stage and once more when the connection ends, whatever the stage) *)
 Theorem C10_att_no_crash : forall d evs, outcomeatt (runatt d evs) <> Crash.
 Proof. exact no_crash_att. Qed.
 Print Assumptions C10_att_no_crash.
+
+(* ---------------- C10.9: at worst the offending connection is ended ---------------- *)
+(* one event changes the state of the connection it belongs to and of no other: every other connection stays as it
+   was (alive, same parser / handler / registry state), only the event's own connection can be added to the list of
+   connections the server ended, everything written is written to it, and the process goes on *)
+Theorem C10_808_event_is_local : forall parse_all s e, v_crashed s = false ->
+  let s' := step808 parse_all s e in
+  (forall c', c' <> ev_conn e -> cfind c' (v_conns s') = cfind c' (v_conns s)) /\
+  (forall c', In c' (v_shut s') -> In c' (v_shut s) \/ c' = ev_conn e) /\
+  (exists l, v_log s' = l ++ v_log s /\ Forall (fun x => fst x = ev_conn e) l) /\
+  v_crashed s' = false.
+Proof. exact step808_local. Qed.
+Print Assumptions C10_808_event_is_local.
+Theorem C10_att_event_is_local : forall d s e, a_crashed s = false ->
+  let s' := stepatt d s e in
+  (forall c', c' <> ev_conn e -> cfind c' (a_conns s') = cfind c' (a_conns s)) /\
+  (exists l, a_log s' = l ++ a_log s /\ Forall (fun x => fst x = ev_conn e) l) /\
+  a_crashed s' = false.
+Proof. exact stepatt_local. Qed.
+Print Assumptions C10_att_event_is_local.
 
 (* ---------------- isolation ---------------- *)
 (* attachment server: everything connection c' causes - the bytes written to it, whether its run() stopped reading after
@@ -233,3 +254,29 @@ Proof. vm_compute. split; reflexivity. Qed.
 Example C10_ex_att :
   outcomeatt (runatt 1 [Connect 1; Close 1; Connect 2; Data 2 0 [48; 49; 99; 100]; Close 2]) = Running.
 Proof. vm_compute. reflexivity. Qed.
+
+(* attachment server, the new observations: connection 1 does the two-file upload of Props/C15 (dialect 1) and closes -
+   its final event stores ./12345678901/A = 01 02 03 04 05 and ./12345678901/B = 7e; connection 2 sends a heartbeat
+   (an id the attachment server does not know: fatal) - its run() stops, nothing is stored; neither sees the other *)
+Example C10_ex_att_saved_and_stopped :
+  let evs := [Connect 1; Connect 2; Data 1 0 C15.ex_stream; Data 2 0 ex_hb; Close 1; Close 2] in
+  outcomeatt (runatt 1 evs) = Running /\
+  existsb (fun o => match o with
+                    | ASaved dir files => list_eqb dir [49; 50; 51; 52; 53; 54; 55; 56; 57; 48; 49] &&
+                                          (Nat.eqb (length files) 2) &&
+                                          list_eqb (snd (hd ([], []) files)) [1; 2; 3; 4; 5]
+                    | _ => false end) (seenatt 1 (runatt 1 evs)) = true /\
+  seenatt 2 (runatt 1 evs) = [AWrite []; AStopped] /\
+  seenatt 1 (runatt 1 evs) = seenatt 1 (runatt 1 (without 2 evs)) /\
+  seenatt 2 (runatt 1 evs) = seenatt 2 (runatt 1 (without 1 evs)).
+Proof. vm_compute. repeat split; reflexivity. Qed.
+
+(* an established session: after its first heartbeat connection 1 has joined; whatever connections 2 and 3 do next,
+   connection 1 sees what it would see alone (hypotheses of C10_established_unaffected, computed) *)
+Example C10_ex_established :
+  let s := run808 false [Connect 1; Data 1 0 ex_hb] in
+  let evs := [Connect 2; Data 2 0 ex_hb; Data 1 3 ex_hb; Connect 3; Data 3 0 ex_pkg0; Data 3 1 [126; 1; 126]; Data 1 9 ex_hb; Close 2] in
+  v_crashed s = false /\ joined 1 s = true /\ no_reconnect 1 evs = true /\
+  map o_seq (fst (seen808 1 (fold_left (step808 false) evs s))) = [0; 1; 2] /\
+  seen808 1 (fold_left (step808 false) evs s) = seen808 1 (fold_left (step808 false) (only 1 evs) s).
+Proof. vm_compute. repeat split; reflexivity. Qed.
